@@ -60,7 +60,7 @@ def check_events(M, C, sizes, tails, candidates, base_case, pfx="anyL", domain=N
     dom = domain or (lambda env_, k, j, i: z3.BoolVal(True))
 
     for n, w in enumerate(writes):
-        name = "%s/stmt%02d[%r,%r,%r]" % (pfx, n, w["idx"][0], w["idx"][1], w["idx"][2])
+        name = "%s/stmt%02d[%s]" % (pfx, n, ",".join(repr(e) for e in w["idx"]))
         target = [e.z3(env) for e in w["idx"]]
         wprem = prem + [G._cons_z3(w["cons"], env), dom(env, *target)]
         sol0 = z3.Solver()
@@ -130,7 +130,7 @@ def check_events(M, C, sizes, tails, candidates, base_case, pfx="anyL", domain=N
     for n, r in enumerate(reads):
         wtarget = [e.z3(env) for e in r["widx"]]
         rprem = prem + [G._cons_z3(r["wcons"], env), dom(env, *wtarget)]
-        written_before(r, rprem, "%s/read%02d[%r,%r,%r]@stmt-seq%d/written-before" % (pfx, n, r["idx"][0], r["idx"][1], r["idx"][2], r["seq"]))
+        written_before(r, rprem, "%s/read%02d[%s]@stmt-seq%d/written-before" % (pfx, n, ",".join(repr(e) for e in r["idx"]), r["seq"]))
         for e, D in r["bounds"]:
             st, mdl = G.check_valid(prem + [G._cons_z3(r["wcons"], env)], z3.And(e.z3(env) >= 0, e.z3(env) < D.z3(env)))
             M._rec("%s/read%02d/index-in-range[%r]" % (pfx, n, e), st, "z3-lia", 0.0, detail=mdl or "", cex=_cex(mdl))
@@ -374,3 +374,160 @@ class DiffRecursionAnyL:
                                 G._cons_z3(ret["cons"], env0) == z3.And(p6 <= env0("nd"), p5 <= env0("nb"), p4 <= env0("na")))
         M._rec(pfx + "/returned-view/extent-is-(nd+1,nb+1,na+1)", st, "z3-lia", 0.0, detail=mdl or "", cex=_cex(mdl))
         check_events(M, C, sizes, tails, candidates, base_case, pfx=pfx, domain=domain, returned=[ret], extra_prem=lambda env: [env("nd") >= 1])
+
+
+class OneElecVerticalAnyL:
+    """_compute_one_elec_integrals, vertical stage (lines up to the contraction over the primitives), for ALL l_a, l_b >= 0:
+    the table V[m, a_x, a_y, a_z] of auxiliary integrals (a | 1/r_C | s)^(m) obeys, for ANY function F_m(T) used as the Boys
+    function,
+
+        V[m, 0]         = (2 pi / p) F_m(p |PC|^2) exp(-mu |AB|^2)
+        V[m, a + 1_c]   = PA_c V[m, a] - PC_c V[m+1, a] + a_c / (2p) (V[m, a - 1_c] - V[m+1, a - 1_c])        (c = x, y, z)
+
+    on the domain m + a_x + a_y + a_z <= l_a + l_b (each unit of angular momentum costs one order m; what the code leaves
+    outside that domain is garbage that no specified element reads); the part handed to the contraction step, V[0, a] with
+    |a| <= l_a + l_b, has been written.  The remaining stages of the function (contraction, horizontal recursion, component
+    norms - where l/2 appears as an exponent) are outside the generic-element fragment and covered per shape only
+    (contracts.coulomb:OneElecKernel)."""
+
+    function = "gbasis.integrals._one_elec_int._compute_one_elec_integrals (vertical recursion; any angular momenta)"
+
+    def shapes(self, tier):
+        return [dict(K=[2, 1], N=1)]
+
+    def native(self, shape, M):
+        # the counterexample extents are replayed through the per-shape contract of the whole kernel
+        from .coulomb import OneElecKernel
+
+        def ext(name, default):
+            try:
+                return max(0, min(3, int(M.env[name])))
+            except Exception:
+                return default
+
+        la, lb = ext("la", 2), ext("lb", 1)
+        la, lb = max(la, lb), min(la, lb)
+        sub = Mode_like = M
+        before = len(M.results)
+        wanted, M.wanted = M.wanted, None
+        try:
+            OneElecKernel().run(dict(la=la, lb=lb, K=[1, 1], M=[1, 1], N=1), M)
+        finally:
+            M.wanted = wanted
+        new = M.results[before:]
+        del M.results[before:]
+        bad = []
+        for r in new:
+            if r["status"] == "failed":
+                bad.append(r["name"])
+            elif r["status"] == "value":
+                from engine import runner
+
+                g, e = runner._parse_num(r["got"]), runner._parse_num(r["exp"])
+                if not (abs(g - e) <= 1e-8 * max(abs(e), abs(g), 1)):
+                    bad.append("%s: %s vs %s" % (r["name"], r["got"], r["exp"]))
+        M.true(M.wanted or "anyLcoul/native-kernel-equals-specification", not bad,
+               "l_a = %d, l_b = %d: %d of %d elements of the native kernel differ from the specification; first: %s" % (la, lb, len(bad), len(new), bad[:2]))
+
+    def run(self, shape, M):
+        if not M.symbolic:
+            return self.native(shape, M)
+        import z3
+
+        mod = M.mods["gbasis.integrals._one_elec_int"]
+        Ka, Kb = shape["K"]
+        N = shape["N"]
+        A, B = M.vec("A", 3), M.vec("B", 3)
+        pts = M.vec("R", (N, 3))
+        ea, eb = M.vec("a", Ka, "pos"), M.vec("b", Kb, "pos")
+        da, db = M.vec("da", (Ka, 1)), M.vec("db", (Kb, 1))
+        sizes = ["la", "lb"]
+        la, lb = G.Aff.var("la"), G.Aff.var("lb")
+        C = G.Ctx(sizes)
+        G.CTX[0] = C
+        seen = {}
+
+        def boys(orders, T):
+            # ANY function of (m, T): opaque atoms F[m | point, primitive pair]; the argument is checked below
+            seen["boys"] = (orders, T)
+            if not isinstance(orders, G.GIota) or orders.ndim != 4 or orders.axis != 0:
+                raise alg.Undecided("Boys function called with orders of an unexpected form")
+            Tarr = np.asarray(T, dtype=object)
+            if Tarr.ndim < 4 or Tarr.shape[-4] != 1:
+                raise alg.Undecided("Boys argument of an unexpected shape %s" % (Tarr.shape,))
+            data = np.empty(Tarr.shape, dtype=object)  # the order axis (4th from the right) has length 1 here: generic position p4
+            for pos in itertools.product(*[range(n) for n in Tarr.shape]):
+                data[pos] = C.named_atom("F", G.Aff.var("p4"), pos[-3:])
+            return G.GVal(data, {4: [G.SymAxis(G.Aff.of(0), [orders.D])]}, [])
+
+        stage_end = None
+        try:
+            with bind.patched((mod, "np", G.GNp(mod.np)), (mod, "range", G.grange)):
+                mod._compute_one_elec_integrals(pts, boys, A, la, ea, da, B, lb, eb, db)
+        except G.StageEnd as e:
+            stage_end = str(e)
+        finally:
+            G.CTX[0] = None
+        pfx = "anyLcoul"
+        M.true(pfx + "/vertical-stage-completed", stage_end is not None, "the run reaches the contraction step (%s)" % stage_end)
+        tails = list(itertools.product(range(N), range(Kb), range(Ka)))
+        # callee precondition: the Boys function is asked for orders 0 .. l_a + l_b at T = p |PC|^2
+        bo = seen.get("boys")
+        M.true(pfx + "/pre@boys/called", bo is not None, "")
+        if bo is None:
+            return
+        envb, _ = G._z3env()
+        st, mdl = G.check_valid(_sizes_premise(envb, sizes), bo[0].D.z3(envb) >= (la + lb + 1).z3(envb))
+        M._rec(pfx + "/pre@boys/orders-0..la+lb-are-requested", st, "z3-lia", 0.0, detail=mdl or "orders 0 .. %r - 1" % bo[0].D, cex=_cex(mdl))
+        Tarr = np.asarray(bo[1], dtype=object)
+        M.true(pfx + "/pre@boys/argument-shape", Tarr.shape[-4:] == (1, N, Kb, Ka) and Tarr.size == N * Kb * Ka, str(Tarr.shape))
+        Tarr = Tarr.reshape((1, N, Kb, Ka)) if Tarr.size == N * Kb * Ka else Tarr
+
+        def geom(c, n, pb, pa):
+            a, b = ea[pa], eb[pb]
+            p = a + b
+            P = [(a * A[x] + b * B[x]) / p for x in range(3)]
+            return dict(p=p, PA=P[c] - A[c], PC=P[c] - pts[n, c], P=P, a=a, b=b)
+
+        if Tarr.shape == (1, N, Kb, Ka):
+            for (n, pb, pa) in tails:
+                g = geom(0, n, pb, pa)
+                T = sum(((g["P"][x] - pts[n, x]) * (g["P"][x] - pts[n, x]) for x in range(3)), S.lift(0)) * g["p"]
+                M.eq(pfx + "/pre@boys/argument" + str([n, pb, pa]), Tarr[0, n, pb, pa], T)
+
+        def candidates(idx, tail):
+            m = idx[0]
+            out_ = []
+            for c in (2, 1, 0):
+                ac = idx[1 + c]
+                if ac.is_const() and ac.c == 0:
+                    continue
+                g = geom(c, *tail)
+                low = list(idx)
+                low[1 + c] = ac - 1
+                up = list(low)
+                up[0] = m + 1
+                rhs = g["PA"] * C.atom(*(tuple(low) + (tail,))) - g["PC"] * C.atom(*(tuple(up) + (tail,)))
+                coef = ac - 1
+                if not (coef.is_const() and coef.c == 0):
+                    low2, up2 = list(low), list(up)
+                    low2[1 + c] = ac - 2
+                    up2[1 + c] = ac - 2
+                    rhs = rhs + coef.to_sym() / (g["p"] * 2) * (C.atom(*(tuple(low2) + (tail,))) - C.atom(*(tuple(up2) + (tail,))))
+                out_.append(("the vertical relation raising a_%s" % "xyz"[c], rhs, [ac - 1]))
+            return out_
+
+        def base_case(idx, tail):
+            if all(e.is_const() and e.c == 0 for e in idx[1:]):
+                g = geom(0, *tail)
+                ab2 = sum(((A[x] - B[x]) * (A[x] - B[x]) for x in range(3)), S.lift(0))
+                return M.SF.pi * 2 / g["p"] * C.named_atom("F", idx[0], tail) * M.SF.exp(-(g["a"] * g["b"] / g["p"]) * ab2)
+            return None
+
+        def domain(env, m, ax, ay, az):
+            return z3.And(m >= 0, ax >= 0, ay >= 0, az >= 0, m + ax + ay + az <= env("la") + env("lb"))
+
+        # what goes on to the contraction step: V[0, a_x, a_y, a_z] for |a| <= l_a + l_b
+        ret = dict(kind="read", idx=(G.Aff.of(0), G.Aff.var("rx"), G.Aff.var("ry"), G.Aff.var("rz")), loops=[], seq=None, bounds=[],
+                   cons=[("ge", G.Aff.var(v), G.Aff.of(0)) for v in ("rx", "ry", "rz")] + [("lt", G.Aff.var("rx") + G.Aff.var("ry") + G.Aff.var("rz"), la + lb + 1)])
+        check_events(M, C, sizes, tails, candidates, base_case, pfx=pfx, domain=domain, returned=[ret])
